@@ -14,10 +14,16 @@ def make_pv(case, membrane_spec=None):
     return build.Pervaporation(membrane=mem, mixture=mix), mix
 
 
+def _preused(comp):
+    from .procs import preuse
+
+    return preuse(comp)
+
+
 def solver_kwargs(case, explicit=True):
     kw = dict(
         feed_temperature=case["T"],
-        composition=build.composition(case["x"], case["basis"]),
+        composition=_preused(build.composition(case["x"], case["basis"])),
         precision=case["precision"],
         permeate_temperature=case["perm"].get("T"),
         permeate_pressure=case["perm"].get("p"),
